@@ -418,3 +418,75 @@ def maxpool_rule(repo):
     ok = [x for x in src if x in need] == need
     out.append((holds if ok else unrecognised)("MAXPOOL", fi, role, "; ".join(need)[:160], fi.node, nontrivial=False))
     return out
+
+
+def refgrad_rule(repo):
+    """The gradient taken w.r.t. the example half must see the examples ONLY: a reference generator that is handed a tensor which already
+    requires grad returns references attached to the same autograd graph (a differentiable generator - `ersatz.shuffle` indexes its
+    input - makes d y / d _X collect the reference half as well, and the pair identity sum((x - ref) * m) = f(x) - f(ref) is lost).
+    Flow-sensitive taint over the statements of deep_lift_shap (lexical order, loop bodies twice): a name is tainted when it is bound
+    to an expression containing `.requires_grad_(..)` / `requires_grad=True`, or mentioning a tainted name outside `.detach()`;
+    a call of the `references` callable must not mention a tainted name."""
+    from ..core import named
+    fi = repo.func(D + ".deep_lift_shap")
+    role = "the reference generator is called on tensors that do not require grad (references stay outside the examples' autograd graph)"
+    calls = [n for n in ast.walk(fi.node) if isinstance(n, ast.Call) and isinstance(n.func, ast.Name) and n.func.id == "references"]
+    if not calls:
+        return [unrecognised("REFGRAD", fi, role, "no call of the `references` callable found", fi.node)]
+    tainted = set()
+    bad = []
+
+    def mentions_tainted(e):
+        skip = set()
+        for n in ast.walk(e):
+            if isinstance(n, ast.Call) and isinstance(n.func, ast.Attribute) and n.func.attr in ("detach", "numpy", "tolist", "item"):
+                skip |= {id(x) for x in ast.walk(n)}
+        return any(isinstance(n, ast.Name) and n.id in tainted and id(n) not in skip and isinstance(n.ctx, ast.Load) for n in ast.walk(e))
+
+    def makes_grad(e):
+        for n in ast.walk(e):
+            if isinstance(n, ast.Call) and isinstance(n.func, ast.Attribute) and n.func.attr == "requires_grad_" and \
+                    not (n.args and const_value(n.args[0]) is False):
+                return True
+            if isinstance(n, ast.keyword) and n.arg == "requires_grad" and const_value(n.value) is True:
+                return True
+        return False
+
+    def visit(stmts):
+        for st in stmts:
+            if isinstance(st, (ast.FunctionDef, ast.ClassDef)):
+                continue
+            heads = []
+            if isinstance(st, (ast.If, ast.While)):
+                heads = [st.test]
+            elif isinstance(st, ast.For):
+                heads = [st.iter]
+            elif isinstance(st, ast.With):
+                heads = [i.context_expr for i in st.items]
+            simple = [st] if not hasattr(st, "body") else heads
+            for part in simple:
+                for c in ast.walk(part):
+                    if isinstance(c, ast.Call) and isinstance(c.func, ast.Name) and c.func.id == "references" and \
+                            any(mentions_tainted(a) for a in list(c.args) + [k.value for k in c.keywords]) and c not in bad:
+                        bad.append(c)
+            if isinstance(st, ast.Assign) and all(isinstance(t, ast.Name) for t in st.targets):
+                t_ = makes_grad(st.value) or mentions_tainted(st.value)
+                for t in st.targets:
+                    (tainted.add if t_ else tainted.discard)(t.id)
+            elif isinstance(st, ast.Expr) and isinstance(st.value, ast.Call) and isinstance(st.value.func, ast.Attribute) and \
+                    st.value.func.attr == "requires_grad_" and isinstance(st.value.func.value, ast.Name):
+                tainted.add(st.value.func.value.id)
+            if isinstance(st, (ast.For, ast.While)):
+                visit(st.body)
+                visit(st.body)
+                visit(st.orelse)
+            else:
+                for f in ("body", "orelse", "finalbody"):
+                    visit(getattr(st, f, []) or [])
+                for h in getattr(st, "handlers", []) or []:
+                    visit(h.body)
+    visit(fi.node.body)
+    if bad:
+        return [named("REFGRAD", fi, role, "`%s` receives a tensor that already requires grad: references produced by a differentiable generator "
+                      "(ersatz.shuffle) join the autograd graph of the examples" % unparse(bad[0])[:70], bad[0])]
+    return [holds("REFGRAD", fi, role, "%d generator call(s), none on a tensor that requires grad" % len(calls), calls[0])]
